@@ -22,8 +22,8 @@ def permitted(where, code, kind, want, chain=()):
         # a parameter without a default acquires the zero value of its (scalar) type, or None
         return code == "default-invented-zero" or (e is not None and e.get("typ") not in ZERO)
     if "argparse" in kinds:
-        if code == "default-invented-zero":
-            return True  # required option without default acquires the zero value
+        if code == "default-invented-zero" or (code == "default-invented-empty-str" and "argparse" in kinds[1:]):
+            return True  # required option without default acquires the zero value ('' for every type argparse reads as str)
         if code == "default-lost" and e is not None and "default" in e and _is_none(e.get("default")):
             return True  # Optional <-> not required: a None default is carried by optionality
         if code == "typ-changed" and e is not None and "default" in e and _is_none(e["default"]):
@@ -59,10 +59,6 @@ TOL = {
     # (in a chain the invented None then shows up as Optional[...] / a 'Defaults to None' sentence in later kinds)
     "KF-RT-fn-none-default": lambda k, w, c, ir, o: k in ("function", "method") and "default" not in _entry(ir, w)
     and c in ("default-invented-none", "typ-changed", "doc"),
-    # an empty-string default (e.g. the zero value a class/argparse hop gives a str parameter) is written as a dangling
-    # 'Defaults to' sentence with no value
-    "KF-RT-empty-str-default": lambda k, w, c, ir, o: c == "doc" and _entry(ir, w).get("typ") in ("str", None)
-    and _entry(ir, w).get("default", "") == "",
     # numpydoc/google: after a parameter with a default, later entries (and the return entry) acquire a zero default
     "KF-RT-np-force-default": lambda k, w, c, ir, o: k in ("numpydoc", "google")
     and c in ("default-invented-zero", "default-invented-none") and _has_default_before(ir, w),
@@ -145,9 +141,6 @@ def _acquires_empty(ir, kinds, upto, ret):
 
 # chain-aware exception tolerances: id -> predicate(kinds, ir, exception type name)
 TOL_EXC_CHAIN = {
-    # numpydoc writes the '' default as a dangling 'Defaults to' and its own parser then evaluates the empty text: SyntaxError
-    "KF-RT-empty-str-default": lambda kinds, ir, exc: exc == "SyntaxError" and any(
-        k == "numpydoc" and _acquires_empty(ir, kinds, i, False) for i, k in enumerate(kinds)),
     # emit.argparse_function does ast.parse(default).body[0] on a '' return default: IndexError
     "KF-C09-empty-return-default": lambda kinds, ir, exc: exc == "IndexError" and any(
         k == "argparse" and _acquires_empty(ir, kinds, i, True) for i, k in enumerate(kinds)),
